@@ -176,6 +176,13 @@ class SymList:
         self.length = self.length - 1
         return v
 
+    def pop_first(self):
+        v = self.at(z3.IntVal(0))
+        i = fresh("sh", z3.IntSort())
+        self.arr = z3.Lambda([i], z3.Select(self.arr, i + 1))
+        self.length = self.length - 1
+        return v
+
 
 class SymMap:
     """Python dict as (domain: Array K -> Bool, values: Array K -> V)."""
@@ -716,6 +723,15 @@ class Exec:
         if isinstance(op, (ast.In, ast.NotIn)):
             r = self.contains(b, a)
             return r if isinstance(op, ast.In) else z_not(r)
+        if isinstance(op, (ast.Eq, ast.NotEq)) and (isinstance(a, SymList) or isinstance(b, SymList)):
+            sl, other = (a, b) if isinstance(a, SymList) else (b, a)
+            if isinstance(other, list):
+                r = z_and(sl.length == len(other), *[sl.at(i) == to_z3(x) for i, x in enumerate(other)])
+            elif isinstance(other, SymList):
+                raise Unsupported("equality of two symbolic lists")
+            else:
+                r = False  # a list never equals a tuple / scalar
+            return r if isinstance(op, ast.Eq) else z_not(r)
         if isinstance(a, EnumVal) or isinstance(b, EnumVal):
             if isinstance(a, EnumVal) and isinstance(b, EnumVal):
                 r = a.cls == b.cls and a.name == b.name
@@ -774,6 +790,9 @@ class Exec:
             return container.has(item)
         if isinstance(container, SymSet):
             return container.has(item)
+        if isinstance(container, SymList):
+            i = fresh("mi", z3.IntSort())
+            return z3.Exists([i], z3.And(i >= 0, i < container.length, container.at(i) == to_z3(item)))
         if isinstance(container, str) and isinstance(item, str):
             return item in container
         if isinstance(container, (str, z3.SeqRef)) and isinstance(item, (str, z3.SeqRef)):
@@ -954,6 +973,8 @@ class Exec:
         it = self.eval(g.iter, pc, env)
         if isinstance(it, dict):
             it = list(it.keys())
+        if isinstance(it, SymList) or (isinstance(it, SymEnumerate) and isinstance(it.inner, SymList)):
+            return SymComp(self, n, g, it, pc, env)
         if not isinstance(it, (list, tuple, set, range)):
             raise Unsupported(f"comprehension over {type(it).__name__}")
         out = []
@@ -1088,9 +1109,23 @@ class Exec:
             if attr == "append":
                 obj.append(args[0])
                 return None
+            if attr == "remove" and len(args) == 1:
+                x = to_z3(args[0])
+                member = self.contains(obj, x)
+                self.oblige(f"valueerror@L{ln}", pc, member, "list.remove(x): x must be in the list")
+                p, i = fresh("rm", z3.IntSort()), fresh("ri", z3.IntSort())
+                # p is the first position holding x (exists whenever x is a member; guarded so that other paths are not constrained)
+                self.facts.append(z3.Implies(member, z3.And(p >= 0, p < obj.length, obj.at(p) == x, z3.ForAll([i], z3.Implies(z3.And(i >= 0, i < p), obj.at(i) != x)))))
+                old_arr = obj.arr
+                obj.arr = z3.Lambda([i], z3.If(i < p, z3.Select(old_arr, i), z3.Select(old_arr, i + 1)))
+                obj.length = obj.length - 1
+                return None
+            if attr == "pop" and args and not is_sym(args[0]) and args[0] == 0:
+                self.oblige(f"indexerror@L{ln}", pc, obj.length > 0, "pop from empty list")
+                return obj.pop_first()
             if attr == "pop":
                 if args and args[0] != -1:
-                    raise Unsupported("pop at other index than -1")
+                    raise Unsupported("pop at other index than -1 / 0")
                 self.oblige(f"indexerror@L{ln}", pc, obj.length > 0, "pop from empty list")
                 return obj.pop_last()
         if isinstance(obj, SymMap):
@@ -1516,6 +1551,47 @@ def _b_str(ex, pc, args, kw):
     return str(args[0])
 
 
+class SymComp:
+    """[elt for target in L if cond] / [... in enumerate(L) ...] over a symbolic list L: kept lazy; supports truthiness
+    (some position passes the condition) and membership (some passing position yields the item)."""
+
+    def __init__(self, ex, node, gen, it, pc, env):
+        self.ex, self.node, self.gen, self.pc, self.env = ex, node, gen, list(pc), dict(env)
+        self.enumerated = isinstance(it, SymEnumerate)
+        self.lst = it.inner if self.enumerated else it
+
+    def __deepcopy__(self, memo):
+        return self
+
+    def at(self, i):
+        x = self.lst.at(i)
+        e2 = self.ex.assign(self.gen.target, (i, x) if self.enumerated else x, self.pc, self.env)
+        cond = z_and(*[truth(self.ex.eval(c, self.pc, e2)) for c in self.gen.ifs])
+        return cond, self.ex.eval(self.node.elt, self.pc, e2)
+
+    def exists(self, body):
+        i = fresh("li", z3.IntSort())
+        c, e = self.at(i)
+        return z3.Exists([i], z3.And(i >= 0, i < self.lst.length, to_z3(c), to_z3(body(e))))
+
+    def hv_truth(self):
+        return self.exists(lambda e: True)
+
+    def hv_contains(self, ex, item):
+        return self.exists(lambda e: to_z3(e) == to_z3(item))
+
+
+def _b_sorted(ex, pc, args, kw):
+    v = args[0]
+    if kw or len(args) != 1:
+        raise Unsupported("sorted() with key / reverse")
+    if hasattr(v, "hv_sorted"):
+        return v.hv_sorted(ex, pc)
+    if isinstance(v, (list, tuple, set, frozenset)) and _all_concrete([v]):
+        return sorted(v)
+    raise Unsupported(f"sorted() of {type(v).__name__}")
+
+
 class SymRange:
     def __init__(self, *a):
         self.args = a
@@ -1543,6 +1619,7 @@ _BUILTINS: Dict[str, Callable] = {
     "str": _b_str,
     "hasattr": lambda ex, pc, args, kw: _b_hasattr(args),
     "iter": _b_iter,
+    "sorted": _b_sorted,
     "next": _b_next,
     "object": lambda ex, pc, args, kw: (_ for _ in ()).throw(Unsupported("object()")),
 }
